@@ -23,10 +23,14 @@ Tolerances (all justified where they are defined): float32 paths 1e-5 rad (relat
 1 rad), double precision rigid-motion laws 1e-9 (scaled by the magnitudes involved).
 """
 import math
+import os
 
-import numpy as np
+os.environ.setdefault('OPENBLAS_NUM_THREADS', '1')   # 3x3 / 4x4 algebra only: BLAS threads just add contention
+os.environ.setdefault('OMP_NUM_THREADS', '1')
 
-from vf.core import Partial
+import numpy as np  # noqa: E402
+
+from vf.core import Partial  # noqa: E402
 
 ID = 'C15'
 LEVEL = 'exploration'
@@ -36,11 +40,6 @@ H_MAX = math.radians(80.0)      # field of view of the property statement
 V_MAX = math.radians(55.0)
 
 VERBOSE = False                 # replay switches this on
-
-
-def _say(*a):
-    if VERBOSE:
-        print(*a)
 
 
 # ---------------------------------------------------------------------------------------------
@@ -212,7 +211,8 @@ class Part(Partial):
         ratio = err / tol if err == err else float('inf')
         if ratio > self.worst.get(clause, 0.0):
             self.worst[clause] = ratio
-        _say('   %-28s residual %.3g  tolerance %.3g  %s' % (clause, err, tol, 'ok' if ratio <= 1 else 'FAIL'))
+        if VERBOSE:
+            print('   %-28s residual %.3g  tolerance %.3g  %s' % (clause, err, tol, 'ok' if ratio <= 1 else 'FAIL'))
         if not ratio <= 1.0:
             self.violation('%s:%s' % (clause, cls), what() + ' (residual %.3g > tolerance %.3g)' % (err, tol), replay)
             return False
@@ -255,7 +255,8 @@ def check_direction(p, h, v):
 
     cart = np.asarray(b.cart)
     c64 = cart.astype(np.float64)
-    _say('  cart = %r' % (cart,))
+    if VERBOSE:
+        print('  cart = %r' % (cart,))
     # unit vector: a float32 normalisation leaves |norm-1| of a few 1e-8 (3 components x 2^-24);
     # 1e-6 is float32 accuracy with a wide margin.
     p.chk('cart:unit_norm', cls, abs(math.sqrt(float(c64 @ c64)) - 1.0), 1e-6,
@@ -271,7 +272,8 @@ def check_direction(p, h, v):
                   h, v, name, o.lh_v1_horiz_angle, o.lh_v1_vert_angle), rp)
     # projection
     proj = np.asarray(b.projection)
-    _say('  projection = %r' % (proj,))
+    if VERBOSE:
+        print('  projection = %r' % (proj,))
     ref = np.array([math.tan(h), math.tan(v)])
     p.chk('proj:value', cls, float(np.max(np.abs(proj.astype(np.float64) - ref) / (1e-5 * np.abs(ref) + 1e-30))), 1.0,
           lambda: 'projection of V1 (%r, %r) = %r, expected (tan h, tan v) = %r' % (h, v, proj, ref), rp)
@@ -282,7 +284,8 @@ def check_direction(p, h, v):
                   h, v, name, o.lh_v1_horiz_angle, o.lh_v1_vert_angle), rp)
     # V2 (pure double precision: same relative tolerance is generous)
     a1, a2 = b.lh_v2_angle_1, b.lh_v2_angle_2
-    _say('  V2 angles = (%r, %r)' % (a1, a2))
+    if VERBOSE:
+        print('  V2 angles = (%r, %r)' % (a1, a2))
     o = LighthouseBsVector.from_lh2(a1, a2)
     p.chk('v2:roundtrip', cls, adiff(o), 1.0,
           lambda: 'V1 (%r, %r) -> V2 (%r, %r) -> from_lh2 gives (%r, %r)' % (
@@ -342,7 +345,8 @@ def check_v2(p, a1, a2):
     from cflib.localization.lighthouse_bs_vector import LighthouseBsVector
     b = LighthouseBsVector.from_lh2(a1, a2)
     h, v = b.lh_v1_horiz_angle, b.lh_v1_vert_angle
-    _say('  from_lh2(%r, %r) -> V1 (%r, %r)' % (a1, a2, h, v))
+    if VERBOSE:
+        print('  from_lh2(%r, %r) -> V1 (%r, %r)' % (a1, a2, h, v))
     # independent V1 angles: the ray is the intersection of the two light planes
     x = np.cross(v2_plane_normal(a1, -T_TILT), v2_plane_normal(a2, T_TILT))
     if x[0] < 0:
@@ -407,7 +411,8 @@ def check_views(p, rv, t):
     t_arr = np.array(t, dtype=float)
     P = Pose.from_rot_vec(R_vec=rv, t_vec=t)
     Rm = np.asarray(P.rot_matrix, dtype=float)
-    _say('  from_rot_vec(%r).rot_matrix =\n%r' % (rv, Rm))
+    if VERBOSE:
+        print('  from_rot_vec(%r).rot_matrix =\n%r' % (rv, Rm))
     p.chk('views:from_rot_vec', cls, np.max(np.abs(Rm - R)), POSE_TOL,
           lambda: 'Pose.from_rot_vec(%r).rot_matrix differs from the Rodrigues matrix' % (rv,), rp)
     # for tiny rotations the off-diagonal part carries the whole rotation: compare it relatively
@@ -427,7 +432,8 @@ def check_views(p, rv, t):
         p.violation('views:matrix_vec:' + cls, 'matrix_vec differs from rot_matrix/translation for %r' % (rv,), rp)
     # rotation-vector view (sign of a half-turn vector is free: compare through the matrix)
     rvv = np.asarray(P.rot_vec, dtype=float)
-    _say('  rot_vec view = %r' % (rvv,))
+    if VERBOSE:
+        print('  rot_vec view = %r' % (rvv,))
     p.chk('views:rot_vec', cls, np.max(np.abs(rodrigues(rvv) - R)) if rvv.shape == (3,) else float('nan'), POSE_TOL,
           lambda: 'rot_vec view %r of rotation vector %r is another rotation' % (rvv, rv), rp)
     if 0.0 < th <= 1e-2 and rvv.shape == (3,):
@@ -435,7 +441,8 @@ def check_views(p, rv, t):
               lambda: 'rot_vec view %r of tiny rotation vector %r' % (rvv, rv), rp)
     # quaternion view (scalar last, as scipy and the Crazyflie use it)
     q = np.asarray(P.rot_quat, dtype=float)
-    _say('  rot_quat view = %r' % (q,))
+    if VERBOSE:
+        print('  rot_quat view = %r' % (q,))
     ok_shape = q.shape == (4,) and float(q @ q) > 0
     p.chk('views:rot_quat', cls, np.max(np.abs(quat_to_matrix(q) - R)) if ok_shape else float('nan'), POSE_TOL,
           lambda: 'rot_quat view %r of rotation vector %r is another rotation' % (q, rv), rp)
@@ -452,7 +459,8 @@ def check_views(p, rv, t):
                 err = np.max(np.abs(np.asarray(Pq.rot_matrix, dtype=float) - R))
             except Exception as e:  # noqa
                 err = float('nan')
-                _say('  from_quat raised %r' % (e,))
+                if VERBOSE:
+                    print('  from_quat raised %r' % (e,))
             p.chk('views:from_quat', cls, err, POSE_TOL,
                   lambda: 'Pose.from_quat(%s=%r).rot_matrix differs from the rotation of vector %r' % (name, qq, rv), rp)
     # constructor from matrix
@@ -493,7 +501,8 @@ def part_defaults(_):
         except Exception as e:  # noqa
             err = float('nan')
             what = '%s raised %r' % (name, e)
-        _say('  %s -> %s' % (name, what))
+        if VERBOSE:
+            print('  %s -> %s' % (name, what))
         sig = 'views:default_' + ('from_quat' if 'from_quat' in name else 'constructor')
         p.chk(sig, 'identity', err, POSE_TOL,
               lambda: what + '; the default of every constructor is documented as "no rotation" (identity)',
@@ -541,20 +550,38 @@ def _pose_err(A, R, t):
                float(np.max(np.abs(np.asarray(A.translation, dtype=float) - t))))
 
 
-def check_pair(p, rvP, tP, rvQ, tQ, points):
-    cls = most_special(rvP, rvQ)
+class _Cached:
+    """Per-pose data that does not depend on the partner: the cflib Pose and the reference matrices."""
+    __slots__ = ('rv', 't', 'pose', 'H', 'Hinv', 'cls', 'snap', 'tmag')
+
+    def __init__(self, rv, t):
+        self.rv, self.t = rv, t
+        self.pose = _pose(rv, t)
+        self.H = hom(rodrigues(rv), t)
+        self.Hinv = np.linalg.inv(self.H)
+        self.cls = rot_class(rv)
+        self.snap = (self.pose.rot_matrix.copy(), self.pose.translation.copy())
+        self.tmag = float(np.max(np.abs(np.asarray(t, dtype=float))))
+
+    def unchanged(self):
+        return np.array_equal(self.snap[0], self.pose.rot_matrix) and np.array_equal(
+            self.snap[1], self.pose.translation)
+
+
+def check_pair(p, cP, cQ, points):
+    rvP, tP, rvQ, tQ = cP.rv, cP.t, cQ.rv, cQ.t
+    cls = min(cP.cls, cQ.cls, key=_SPECIAL_ORDER.index)
     rp = {'part': 'pair', 'rvP': list(rvP), 'tP': list(tP), 'rvQ': list(rvQ), 'tQ': list(tQ)}
-    P, Q = _pose(rvP, tP), _pose(rvQ, tQ)
-    snapshot = (P.rot_matrix.copy(), P.translation.copy(), Q.rot_matrix.copy(), Q.translation.copy())
-    HP, HQ = hom(rodrigues(rvP), tP), hom(rodrigues(rvQ), tQ)
-    tol = POSE_TOL * _mag(tP, tQ)
+    P, Q = cP.pose, cQ.pose
+    HP, HQ = cP.H, cQ.H
+    tol = POSE_TOL * (1.0 + cP.tmag + cQ.tmag)
     desc = 'P=(rv %r, t %r) Q=(rv %r, t %r)' % (rvP, tP, rvQ, tQ)
     C = P.rotate_translate_pose(Q)
     HC = HP @ HQ
     p.chk('pose:compose_ref', cls, _pose_err(C, HC[:3, :3], HC[:3, 3]), tol,
           lambda: 'P.rotate_translate_pose(Q) differs from the matrix product H_P.H_Q for ' + desc, rp)
     D = P.inv_rotate_translate_pose(Q)
-    HD = np.linalg.inv(HP) @ HQ
+    HD = cP.Hinv @ HQ
     p.chk('pose:inverse_compose_ref', cls, _pose_err(D, HD[:3, :3], HD[:3, 3]), tol,
           lambda: 'P.inv_rotate_translate_pose(Q) differs from inv(H_P).H_Q for ' + desc, rp)
     B = P.inv_rotate_translate_pose(C)
@@ -574,8 +601,7 @@ def check_pair(p, rvP, tP, rvQ, tQ, points):
         onei = np.asarray(C.inv_rotate_translate(xa), dtype=float)
         p.chk('pose:inverse_of_composition', cls, np.max(np.abs(seqi - onei)), tolx,
               lambda: '(P o Q)^-1(%r) = %r but Q^-1(P^-1(x)) = %r for ' % (x, onei, seqi) + desc, rp)
-    after = (P.rot_matrix, P.translation, Q.rot_matrix, Q.translation)
-    if not all(np.array_equal(a, b) for a, b in zip(snapshot, after)):
+    if not (cP.unchanged() and cQ.unchanged()):
         p.violation('pose:operand_modified:' + cls, 'composition changed an operand for ' + desc, rp)
     return cls
 
@@ -583,11 +609,12 @@ def check_pair(p, rvP, tP, rvQ, tQ, points):
 def part_pairs(job):
     left, poses, points = job
     p = Part()
+    cache = {q: _Cached(*q) for q in poses}
     for (rvP, tP) in left:
         cls1 = check_single(p, rvP, tP, POINTS)
         p.case(key=('single', rvP, tP), outcome=cls1)
         for (rvQ, tQ) in poses:
-            cls = check_pair(p, rvP, tP, rvQ, tQ, points)
+            cls = check_pair(p, cache[(rvP, tP)], cache[(rvQ, tQ)], points)
             smp = None
             if (rvP, tP, rvQ, tQ) == (GENERIC_ROTVECS[3], TRANSLATIONS[4], (0.0, 0.0, PI), TRANSLATIONS[6]):
                 C = _pose(rvP, tP).rotate_translate_pose(_pose(rvQ, tQ))
@@ -797,6 +824,30 @@ def part_params(job):
 IPPE_TOL_EXACT = 1e-5
 IPPE_TOL_F32 = 1e-3
 IPPE_MIN_COS = 0.1      # |deck normal . line of sight| >= 0.1: the deck is at least 5.7 deg away from edge-on
+# Knife edge of the IPPE algorithm itself: when a deck axis is exactly perpendicular to the viewing ray one
+# singular value of the 2x2 rotation block is exactly 1 and the algorithm takes sqrt(1 - sigma^2) of 0 +- rounding
+# (NaN when the rounding is negative; cflib/localization/_ippe.py, not an anchored file and not a conversion). These
+# grid points are excluded from the true-pose clause (counted, and NaN results counted, in the evidence); the
+# axis-permutation clause below still covers them.
+IPPE_KNIFE_EDGE = 1e-6
+
+_M_IPPE_TO_CF = np.array([[0.0, 0.0, 1.0], [-1.0, 0.0, 0.0], [0.0, -1.0, 0.0]])   # cf_x = z_i, cf_y = -x_i, cf_z = -y_i
+
+
+def _ippe_reference(U_cf, Q_cf):
+    """The wrapper's contract written independently: camera (OpenCV) axes are x right, y down, z forward; the
+    base-station axes are x forward, y left, z up. Model points and image points are permuted by hand, the
+    IPPE core is called, and the poses are permuted back."""
+    from cflib.localization._ippe import mat_run
+    U_i = np.stack((-U_cf[:, 1], -U_cf[:, 2], U_cf[:, 0]))       # 3 x N
+    Q_i = np.stack((-Q_cf[:, 0], -Q_cf[:, 1]))                   # 2 x N (image x = -y_bs, image y = -z_bs)
+    s = mat_run(U_i, Q_i)
+    out = []
+    for k in ('1', '2'):
+        R = _M_IPPE_TO_CF @ np.asarray(s['R' + k], dtype=float) @ _M_IPPE_TO_CF.T
+        t = _M_IPPE_TO_CF @ np.asarray(s['t' + k], dtype=float).ravel()
+        out.append((R, t, float(s['reprojError' + k])))
+    return out
 
 
 def check_ippe(p, f, crv):
@@ -807,34 +858,78 @@ def check_ippe(p, f, crv):
     sens = np.array(LhDeck4SensorPositions.positions, dtype=float)
     RC = rodrigues(crv)
     t = np.array(f, dtype=float)
-    normal = RC @ np.array((0.0, 0.0, 1.0))
-    c = abs(float(normal @ t)) / math.sqrt(float(t @ t))
-    if c < IPPE_MIN_COS:
-        return None
+    los = t / math.sqrt(float(t @ t))
+    c = abs(float((RC @ np.array((0.0, 0.0, 1.0))) @ los))
+    knife = min(abs(float(RC[:, 0] @ los)), abs(float(RC[:, 1] @ los))) < IPPE_KNIFE_EDGE
     cls = rot_class(crv)
     rp = {'part': 'ippe', 'front': list(f), 'crv': list(crv)}
     pts = (RC @ sens.T).T + t                       # sensors in the base-station (camera) frame
     q_exact = np.stack((pts[:, 1] / pts[:, 0], pts[:, 2] / pts[:, 0]), axis=1)
     vecs = LighthouseBsVectors([LighthouseBsVector(math.atan2(s[1], s[0]), math.atan2(s[2], s[0])) for s in pts])
     q_f32 = np.asarray(vecs.projection_pair_list(), dtype=float)
+    status = 'checked'
+    if c < IPPE_MIN_COS:
+        status = 'edge_on'
+    elif knife:
+        status = 'knife_edge'
     for name, Q, tol in (('exact', q_exact, IPPE_TOL_EXACT), ('f32_types', q_f32, IPPE_TOL_F32)):
         u_in, q_in = sens.copy(), Q.copy()
-        try:
-            sols = IppeCf.solve(u_in, q_in)
-            errs = [max(float(np.max(np.abs(np.asarray(s.R, dtype=float) - RC))),
-                        float(np.max(np.abs(np.asarray(s.t, dtype=float).ravel() - t))) / math.sqrt(float(t @ t)))
-                    for s in sols]
-            err = min(errs)
-            _say('  IppeCf.solve(%s): pose errors of the solutions %r' % (name, errs))
-        except Exception as e:  # noqa
+        with np.errstate(all='ignore'):
+            try:
+                sols = IppeCf.solve(u_in, q_in)
+            except Exception as e:  # noqa
+                sols = e
+            try:
+                ref = _ippe_reference(sens.copy(), Q.copy())
+            except Exception as e:  # noqa
+                ref = e
+        if not (np.array_equal(u_in, sens) and np.array_equal(q_in, Q)):
+            p.violation('ippe:inputs_modified', 'IppeCf.solve changed its input arrays', rp)
+        # axis permutation of the wrapper (every grid point, NaN-aware)
+        if isinstance(sols, Exception) or isinstance(ref, Exception):
+            same = type(sols) is type(ref)
+            err = 0.0 if same else float('inf')
+        else:
+            err = 0.0
+            if len(sols) != 2:
+                err = float('inf')
+            else:
+                for s_, (Rr, tr, er) in zip(sols, ref):
+                    got = np.concatenate((np.asarray(s_.R, dtype=float).ravel(), np.asarray(s_.t, dtype=float).ravel(),
+                                          [float(s_.reproj_err)]))
+                    exp = np.concatenate((Rr.ravel(), tr, [er]))
+                    if got.shape != exp.shape or not np.array_equal(np.isnan(got), np.isnan(exp)):
+                        err = float('inf')
+                    else:
+                        m = ~np.isnan(exp)
+                        if m.any():
+                            err = max(err, float(np.max(np.abs(got[m] - exp[m]))) / (1.0 + float(np.max(np.abs(t)))))
+        p.chk('ippe:wrapper_axis_permutation_' + name, cls, err, POSE_TOL,
+              lambda: 'IppeCf.solve on %s projections of the deck at %r (bs frame), rotation vector %r differs from '
+                      'the IPPE core called with hand-permuted axes: %r vs %r' % (name, f, crv, sols, ref), rp)
+        if status != 'checked':
+            if status == 'knife_edge' and not isinstance(sols, Exception) and any(
+                    np.isnan(np.asarray(s_.R, dtype=float)).any() for s_ in sols):
+                p.add('ippe_knife_edge_points_where_core_returns_nan')
+                if VERBOSE:
+                    print('  knife-edge configuration (a deck axis perpendicular to the viewing ray): IPPE core '
+                          'returns NaN for %s projections' % name)
+            continue
+        if isinstance(sols, Exception):
             err = float('nan')
-            _say('  IppeCf.solve raised %r' % (e,))
+            if VERBOSE:
+                print('  IppeCf.solve raised %r' % (sols,))
+        else:
+            errs = [max(float(np.max(np.abs(np.asarray(s_.R, dtype=float) - RC))),
+                        float(np.max(np.abs(np.asarray(s_.t, dtype=float).ravel() - t))) / math.sqrt(float(t @ t)))
+                    for s_ in sols]
+            err = min(errs)
+            if VERBOSE:
+                print('  IppeCf.solve(%s): pose errors of the solutions %r' % (name, errs))
         p.chk('ippe:true_pose_among_solutions_' + name, cls, err, tol,
               lambda: 'IppeCf.solve on %s projections of the deck at %r (bs frame) with rotation vector %r: no '
                       'returned pose matches the true one' % (name, f, crv), rp)
-        if not (np.array_equal(u_in, sens) and np.array_equal(q_in, Q)):
-            p.violation('ippe:inputs_modified', 'IppeCf.solve changed its input arrays', rp)
-    return cls
+    return cls, status
 
 
 def part_ippe(job):
@@ -842,9 +937,10 @@ def part_ippe(job):
     p = Part()
     for f in fronts:
         for crv in rots:
-            cls = check_ippe(p, f, crv)
-            if cls is None:
-                p.add('ippe_grid_points_skipped_edge_on')
+            cls, status = check_ippe(p, f, crv)
+            if status != 'checked':
+                p.add('ippe_grid_points_%s_permutation_clause_only' % status)
+                p.case(key=('ippe', f, crv), outcome=(cls, status))
                 continue
             smp = None
             if crv == GENERIC_ROTVECS[0] and f == fronts[0]:
@@ -956,7 +1052,7 @@ def replay(ck, data):
     elif part == 'single':
         check_single(p, tup('rv'), tup('t'), [tup('x')])
     elif part == 'pair':
-        check_pair(p, tup('rvP'), tup('tP'), tup('rvQ'), tup('tQ'), POINTS)
+        check_pair(p, _Cached(tup('rvP'), tup('tP')), _Cached(tup('rvQ'), tup('tQ')), POINTS)
     elif part == 'triple':
         A, B, C = [(tuple(float(c) for c in x[0]), tuple(float(c) for c in x[1])) for x in data['poses']]
         check_triple(p, A, B, C)
